@@ -44,7 +44,7 @@ FS = None
 _sig = None
 _codes = None
 TREE = None
-REFCACHE = kernel.SCRATCH / 'refcache'
+REFCACHE = kernel.SCRATCH_ROOT / 'refcache'
 NSTL = 33
 
 
